@@ -1,0 +1,664 @@
+//! Verification hooks (cargo feature `verif-hooks`).
+//!
+//! Everything in this module is inert until armed through the functions
+//! below; a hooks-on build behaves like a normal build otherwise. The
+//! module exists so that an external model-checking harness can own the
+//! sources of nondeterminism of the machine: the point at which an
+//! interrupt is observed, which heap growth attempt fails, how much the
+//! heap grows, how bytes arrive at the character reader, and which thread
+//! runs next while atoms are interned.
+
+use std::io::Read;
+use std::sync::atomic::{AtomicBool, AtomicU64, AtomicUsize, Ordering};
+
+use crate::atom_table::{Atom, AtomTable};
+use crate::machine::Machine;
+use crate::machine::heap::Heap;
+use crate::parser::char_reader::{CharRead, CharReader};
+use crate::types::HeapCellValue;
+
+// ---------------------------------------------------------------------
+// H1: interrupt delivery at a chosen instruction boundary.
+
+static INSTR_ARMED: AtomicBool = AtomicBool::new(false);
+static INSTR_COUNT: AtomicU64 = AtomicU64::new(0);
+static INSTR_TARGET: AtomicU64 = AtomicU64::new(u64::MAX);
+
+/// Called once per dispatched instruction. Returns `true` exactly when the
+/// armed instruction index is reached; the `INTERRUPT` flag has then been
+/// raised and the dispatch loop should poll it now.
+#[inline(always)]
+pub(crate) fn instr_tick() -> bool {
+    if !INSTR_ARMED.load(Ordering::Relaxed) {
+        return false;
+    }
+    let n = INSTR_COUNT.fetch_add(1, Ordering::Relaxed);
+    if n == INSTR_TARGET.load(Ordering::Relaxed) {
+        crate::machine::INTERRUPT.store(true, Ordering::Relaxed);
+        true
+    } else {
+        false
+    }
+}
+
+/// Starts counting dispatched instructions from zero and raises the
+/// interrupt flag when instruction number `n` is about to be dispatched
+/// (`u64::MAX`: count only).
+pub fn arm_interrupt_at(n: u64) {
+    INSTR_COUNT.store(0, Ordering::Relaxed);
+    INSTR_TARGET.store(n, Ordering::Relaxed);
+    INSTR_ARMED.store(true, Ordering::Relaxed);
+}
+
+/// Stops counting instructions and returns the number counted since arming.
+pub fn disarm_interrupt() -> u64 {
+    INSTR_ARMED.store(false, Ordering::Relaxed);
+    INSTR_COUNT.load(Ordering::Relaxed)
+}
+
+/// The number of instructions counted since the last arming.
+pub fn instr_count() -> u64 {
+    INSTR_COUNT.load(Ordering::Relaxed)
+}
+
+/// Reads and clears the global interrupt flag.
+pub fn take_interrupt_flag() -> bool {
+    crate::machine::INTERRUPT.swap(false, Ordering::Relaxed)
+}
+
+// ---------------------------------------------------------------------
+// H2/H3: heap growth failure injection and tight growth.
+
+static GROW_ARMED: AtomicBool = AtomicBool::new(false);
+static GROW_COUNT: AtomicU64 = AtomicU64::new(0);
+static GROW_TARGET: AtomicU64 = AtomicU64::new(u64::MAX);
+static GROW_STICKY: AtomicBool = AtomicBool::new(false);
+static GROW_TIGHT: AtomicBool = AtomicBool::new(false);
+static GROW_FAILED: AtomicU64 = AtomicU64::new(0);
+
+/// Called at the start of every heap growth attempt. Returns `true` if this
+/// attempt must fail.
+#[inline]
+pub(crate) fn heap_grow_fails() -> bool {
+    if !GROW_ARMED.load(Ordering::Relaxed) {
+        return false;
+    }
+    let n = GROW_COUNT.fetch_add(1, Ordering::Relaxed);
+    let target = GROW_TARGET.load(Ordering::Relaxed);
+    let fail = if GROW_STICKY.load(Ordering::Relaxed) {
+        n >= target
+    } else {
+        n == target
+    };
+    if fail {
+        GROW_FAILED.fetch_add(1, Ordering::Relaxed);
+    }
+    fail
+}
+
+/// Chooses the new capacity of a growing heap: in tight mode one cell more
+/// than the current capacity, otherwise the capacity the heap asked for.
+#[inline]
+pub(crate) fn heap_new_cap(byte_cap: usize, new_cap: usize) -> usize {
+    if GROW_TIGHT.load(Ordering::Relaxed) && byte_cap != 0 {
+        byte_cap + 8
+    } else {
+        new_cap
+    }
+}
+
+/// Starts counting heap growth attempts from zero; attempt number `k` fails
+/// (and every later one too if `sticky`). `u64::MAX`: count only.
+pub fn arm_heap_fault(k: u64, sticky: bool) {
+    GROW_COUNT.store(0, Ordering::Relaxed);
+    GROW_FAILED.store(0, Ordering::Relaxed);
+    GROW_TARGET.store(k, Ordering::Relaxed);
+    GROW_STICKY.store(sticky, Ordering::Relaxed);
+    GROW_ARMED.store(true, Ordering::Relaxed);
+}
+
+/// Stops injecting growth failures; returns (attempts counted, attempts failed).
+pub fn disarm_heap_fault() -> (u64, u64) {
+    GROW_ARMED.store(false, Ordering::Relaxed);
+    (
+        GROW_COUNT.load(Ordering::Relaxed),
+        GROW_FAILED.load(Ordering::Relaxed),
+    )
+}
+
+/// The number of growth attempts counted since the last arming.
+pub fn grow_count() -> u64 {
+    GROW_COUNT.load(Ordering::Relaxed)
+}
+
+/// Switches tight growth (one cell per growth) on or off.
+pub fn set_tight_growth(on: bool) {
+    GROW_TIGHT.store(on, Ordering::Relaxed);
+}
+
+// ---------------------------------------------------------------------
+// H5: machine footprint and heap trimming.
+
+/// Resource counters of a machine that must not grow across reloads.
+#[derive(Debug, Clone, PartialEq, Eq)]
+pub struct Footprint {
+    /// Cells in the term heap.
+    pub heap_cells: usize,
+    /// Top of the and/or stack.
+    pub stack_top: usize,
+    /// Entries on the trail.
+    pub trail_len: usize,
+    /// Open load contexts.
+    pub load_contexts: usize,
+    /// Arena slabs tagged as inactive load states.
+    pub inactive_load_states: usize,
+    /// Entries in the float table.
+    pub f64_entries: usize,
+    /// Length of the code area.
+    pub code_len: usize,
+    /// Dynamic atoms whose text starts with the given prefix.
+    pub atoms_with_prefix: usize,
+}
+
+impl Machine {
+    /// Reads the footprint counters; `prefix` selects the atoms counted.
+    pub fn verif_footprint(&self, prefix: &str) -> Footprint {
+        let atoms_with_prefix = self
+            .machine_st
+            .atom_tbl
+            .active_table()
+            .iter()
+            .filter(|a| a.as_str().starts_with(prefix))
+            .count();
+        Footprint {
+            heap_cells: self.machine_st.heap.cell_len(),
+            stack_top: self.machine_st.stack.top(),
+            trail_len: self.machine_st.trail.len(),
+            load_contexts: self.load_contexts.len(),
+            inactive_load_states: self
+                .machine_st
+                .arena
+                .verif_slab_count_by_tag(crate::arena::ArenaHeaderTag::InactiveLoadState),
+            f64_entries: self.machine_st.arena.f64_tbl.verif_entry_count(),
+            code_len: self.code.len(),
+            atoms_with_prefix,
+        }
+    }
+
+    /// Shrinks the term heap's capacity to its length (at least one cell).
+    pub fn verif_trim_heap(&mut self) {
+        self.machine_st.heap.verif_trim();
+    }
+
+    /// (length, capacity) of the term heap in bytes.
+    pub fn verif_heap_extent(&self) -> (usize, usize) {
+        let (_, len, cap) = self.machine_st.heap.verif_block();
+        (len, cap)
+    }
+}
+
+// ---------------------------------------------------------------------
+// H4: a public face for `Heap`, for in-process exploration.
+
+/// A term heap that can be driven from outside the crate.
+#[derive(Debug)]
+pub struct VerifHeap {
+    heap: Heap,
+}
+
+impl VerifHeap {
+    /// A heap with room for `cap` cells (at least one).
+    pub fn with_cell_capacity(cap: usize) -> Option<Self> {
+        Heap::with_cell_capacity(cap.max(1))
+            .ok()
+            .map(|heap| VerifHeap { heap })
+    }
+
+    /// Pushes one cell holding the fixnum `n`.
+    pub fn push_fixnum(&mut self, n: i32) -> bool {
+        self.heap
+            .push_cell(HeapCellValue::from_bytes(
+                crate::parser::ast::Fixnum::build_with(n as i32).into_bytes(),
+            ))
+            .is_ok()
+    }
+
+    /// Allocates a partial string; returns its cell location.
+    pub fn allocate_pstr(&mut self, s: &str) -> Option<usize> {
+        let loc = self.heap.cell_len();
+        self.heap.allocate_pstr(s).ok().map(|_| loc)
+    }
+
+    /// Allocates a complete string; returns its cell location.
+    pub fn allocate_cstr(&mut self, s: &str) -> Option<usize> {
+        let loc = self.heap.cell_len();
+        self.heap.allocate_cstr(s).ok().map(|_| loc)
+    }
+
+    /// Copies the partial string at cell `loc` to the end of the heap.
+    pub fn copy_pstr_within(&mut self, loc: usize) -> Option<usize> {
+        self.heap.copy_pstr_within(loc).ok()
+    }
+
+    /// Copies the cell range `from..to` to the end of the heap.
+    pub fn copy_slice_to_end(&mut self, from: usize, to: usize) -> bool {
+        self.heap.copy_slice_to_end(from..to).is_ok()
+    }
+
+    /// Appends all cells of `other`.
+    pub fn append(&mut self, other: &VerifHeap) -> bool {
+        self.heap.append(&other.heap).is_ok()
+    }
+
+    /// Reserves `n` cells and writes `n` fixnum cells into the reservation.
+    pub fn reserve_and_fill(&mut self, n: usize) -> bool {
+        match self.heap.reserve(n) {
+            Ok(mut writer) => {
+                writer.write_with(|section| {
+                    for i in 0..n {
+                        section.push_cell(HeapCellValue::from_bytes(
+                            crate::parser::ast::Fixnum::build_with(i as i32).into_bytes(),
+                        ));
+                    }
+                });
+                true
+            }
+            Err(_) => false,
+        }
+    }
+
+    /// Truncates to `cells` cells.
+    pub fn truncate(&mut self, cells: usize) {
+        self.heap.truncate(cells);
+    }
+
+    /// Length in cells.
+    pub fn cell_len(&self) -> usize {
+        self.heap.cell_len()
+    }
+
+    /// The text of the string stored at cell `loc`, up to its sentinel.
+    pub fn string_at(&self, loc: usize) -> String {
+        self.heap.char_iter(loc * 8).collect()
+    }
+
+    /// (pointer, length in bytes, capacity in bytes) of the backing block.
+    pub fn block(&self) -> (*const u8, usize, usize) {
+        self.heap.verif_block()
+    }
+
+    /// Shrinks the capacity to the length (at least one cell).
+    pub fn trim(&mut self) {
+        self.heap.verif_trim();
+    }
+
+    /// Raw cell contents, for snapshot comparison.
+    pub fn words(&self) -> Vec<u64> {
+        let (ptr, len, _) = self.heap.verif_block();
+        (0..len / 8)
+            .map(|i| unsafe { std::ptr::read(ptr.add(i * 8) as *const u64) })
+            .collect()
+    }
+}
+
+// ---------------------------------------------------------------------
+// H6: a public face for `CharReader`.
+
+/// One decoded item of a character source.
+#[derive(Debug, Clone, PartialEq, Eq)]
+pub enum VerifCharItem {
+    /// A decoded character.
+    Char(char),
+    /// Bytes that are not valid UTF-8.
+    Invalid(Vec<u8>),
+    /// Another I/O error (its kind as text).
+    IoError(String),
+}
+
+/// The crate's buffered UTF-8 reader over an arbitrary byte source.
+pub struct VerifCharReader<R> {
+    inner: CharReader<R>,
+}
+
+impl<R> std::fmt::Debug for VerifCharReader<R> {
+    fn fmt(&self, f: &mut std::fmt::Formatter<'_>) -> std::fmt::Result {
+        f.write_str("VerifCharReader")
+    }
+}
+
+fn char_item(r: Option<std::io::Result<char>>) -> Option<VerifCharItem> {
+    match r {
+        None => None,
+        Some(Ok(c)) => Some(VerifCharItem::Char(c)),
+        Some(Err(e)) => {
+            let kind = e.kind();
+            match e
+                .into_inner()
+                .and_then(|e| e.downcast::<crate::parser::char_reader::BadUtf8Error>().ok())
+            {
+                Some(bad) => Some(VerifCharItem::Invalid(bad.bytes)),
+                None => Some(VerifCharItem::IoError(format!("{kind:?}"))),
+            }
+        }
+    }
+}
+
+impl<R: Read> VerifCharReader<R> {
+    /// Wraps a byte source.
+    pub fn new(inner: R) -> Self {
+        VerifCharReader {
+            inner: CharReader::new(inner),
+        }
+    }
+
+    /// Peeks at the next item without consuming it.
+    pub fn peek_char(&mut self) -> Option<VerifCharItem> {
+        char_item(self.inner.peek_char())
+    }
+
+    /// Reads the next item.
+    pub fn read_char(&mut self) -> Option<VerifCharItem> {
+        char_item(self.inner.read_char())
+    }
+
+    /// Puts a character back in front of the unread input.
+    pub fn put_back_char(&mut self, c: char) {
+        self.inner.put_back_char(c)
+    }
+
+    /// Skips `n` buffered bytes.
+    pub fn consume(&mut self, n: usize) {
+        self.inner.consume(n)
+    }
+
+    /// Peeks at the next byte.
+    pub fn peek_byte(&mut self) -> Option<Result<u8, String>> {
+        self.inner
+            .peek_byte()
+            .map(|r| r.map_err(|e| format!("{:?}", e.kind())))
+    }
+
+    /// Reads raw bytes through the reader's `Read` implementation.
+    pub fn read_bytes(&mut self, buf: &mut [u8]) -> Result<usize, String> {
+        self.inner.read(buf).map_err(|e| format!("{:?}", e.kind()))
+    }
+
+    /// Bytes buffered and not yet consumed.
+    pub fn rem_buf_len(&self) -> usize {
+        self.inner.rem_buf_len()
+    }
+}
+
+// ---------------------------------------------------------------------
+// H8: scheduling points in the atom table.
+
+static ATOM_TABLE_INIT_SIZE_OVERRIDE: AtomicUsize = AtomicUsize::new(0);
+
+/// Overrides the initial size of atom tables created from now on (0: default).
+pub fn set_atom_table_init_size(bytes: usize) {
+    ATOM_TABLE_INIT_SIZE_OVERRIDE.store(bytes, Ordering::SeqCst);
+}
+
+pub(crate) fn atom_table_init_size() -> Option<usize> {
+    match ATOM_TABLE_INIT_SIZE_OVERRIDE.load(Ordering::SeqCst) {
+        0 => None,
+        n => Some(n),
+    }
+}
+
+/// A cooperative scheduler for threads interning atoms: registered threads
+/// run one at a time and hand control back at every scheduling point.
+pub mod sched {
+    use std::cell::Cell;
+    use std::sync::{Condvar, Mutex};
+
+    /// Scheduling point identifiers (the shared-state steps of interning).
+    pub mod point {
+        /// Before the read of the block epoch at the top of the loop.
+        pub const READ_BLOCK: u32 = 0;
+        /// Before the read of the table epoch at the top of the loop.
+        pub const READ_TABLE: u32 = 1;
+        /// Before the lookup's read of the table.
+        pub const LOOKUP: u32 = 2;
+        /// Before taking the update lock.
+        pub const LOCK: u32 = 3;
+        /// Before the re-check read of the block epoch.
+        pub const RECHECK_BLOCK: u32 = 4;
+        /// Before the re-check read of the table epoch.
+        pub const RECHECK_TABLE: u32 = 5;
+        /// Before allocating in the block.
+        pub const ALLOC: u32 = 6;
+        /// Before growing the block and replacing the inner table.
+        pub const GROW: u32 = 7;
+        /// Before writing the atom's bytes.
+        pub const WRITE: u32 = 8;
+        /// Before publishing the new table.
+        pub const PUBLISH: u32 = 9;
+        /// Before releasing the update lock.
+        pub const UNLOCK: u32 = 10;
+        /// Before an `as_str` read of the inner table.
+        pub const AS_PTR: u32 = 11;
+        /// On the retry path after a failed re-check.
+        pub const RETRY: u32 = 12;
+        /// Thread start.
+        pub const START: u32 = 100;
+    }
+
+    /// What a parked thread is about to do.
+    #[derive(Debug, Clone, Copy, PartialEq, Eq)]
+    pub struct Pending {
+        /// The scheduling point.
+        pub point: u32,
+        /// Whether the step needs the model lock to be free.
+        pub needs_lock: bool,
+    }
+
+    #[derive(Debug, Default)]
+    struct State {
+        // which registered thread may run (None: the controller)
+        running: Option<usize>,
+        pending: Vec<Option<Pending>>,
+        finished: Vec<bool>,
+        lock_owner: Option<usize>,
+        trace: Vec<(usize, u32)>,
+    }
+
+    static STATE: Mutex<Option<State>> = Mutex::new(None);
+    static CV: Condvar = Condvar::new();
+
+    thread_local! {
+        static TID: Cell<Option<usize>> = const { Cell::new(None) };
+    }
+
+    /// Starts a fresh execution with `n` threads (controller side).
+    pub fn begin(n: usize) {
+        let mut g = STATE.lock().unwrap();
+        *g = Some(State {
+            running: None,
+            pending: vec![None; n],
+            finished: vec![false; n],
+            lock_owner: None,
+            trace: Vec::new(),
+        });
+    }
+
+    /// Ends the execution and returns the trace of (thread, point) steps.
+    pub fn end() -> Vec<(usize, u32)> {
+        let mut g = STATE.lock().unwrap();
+        g.take().map(|s| s.trace).unwrap_or_default()
+    }
+
+    /// Registers the calling thread as thread `id` and parks it at START.
+    pub fn register(id: usize) {
+        TID.with(|t| t.set(Some(id)));
+        park(id, Pending { point: point::START, needs_lock: false });
+    }
+
+    /// Marks the calling thread finished and returns control.
+    pub fn finish() {
+        let Some(id) = TID.with(|t| t.replace(None)) else { return };
+        let mut g = STATE.lock().unwrap();
+        if let Some(s) = g.as_mut() {
+            s.finished[id] = true;
+            s.pending[id] = None;
+            s.running = None;
+        }
+        CV.notify_all();
+    }
+
+    fn park(id: usize, p: Pending) {
+        let mut g = STATE.lock().unwrap();
+        {
+            let Some(s) = g.as_mut() else { return };
+            s.pending[id] = Some(p);
+            s.running = None;
+        }
+        CV.notify_all();
+        loop {
+            match g.as_ref() {
+                None => return,
+                Some(s) if s.running == Some(id) => return,
+                _ => {}
+            }
+            g = CV.wait(g).unwrap();
+        }
+    }
+
+    /// A scheduling point: parks a registered thread until it is chosen.
+    #[inline]
+    pub fn point(p: u32) {
+        if let Some(id) = TID.with(|t| t.get()) {
+            park(id, Pending { point: p, needs_lock: false });
+        }
+    }
+
+    /// Acquires the model lock: the thread is only schedulable while it is free.
+    #[inline]
+    pub fn acquire() {
+        if let Some(id) = TID.with(|t| t.get()) {
+            park(id, Pending { point: point::LOCK, needs_lock: true });
+            let mut g = STATE.lock().unwrap();
+            if let Some(s) = g.as_mut() {
+                assert!(s.lock_owner.is_none(), "model lock granted while held");
+                s.lock_owner = Some(id);
+            }
+        }
+    }
+
+    /// Releases the model lock.
+    #[inline]
+    pub fn release() {
+        if let Some(id) = TID.with(|t| t.get()) {
+            park(id, Pending { point: point::UNLOCK, needs_lock: false });
+            let mut g = STATE.lock().unwrap();
+            if let Some(s) = g.as_mut() {
+                if s.lock_owner == Some(id) {
+                    s.lock_owner = None;
+                }
+            }
+        }
+    }
+
+    /// Controller: waits until no thread is running, then returns for each
+    /// thread whether it is finished and what it is waiting to do.
+    pub fn wait_quiescent() -> Vec<(bool, Option<Pending>)> {
+        let mut g = STATE.lock().unwrap();
+        loop {
+            {
+                let s = g.as_ref().expect("no execution");
+                let all_parked = s
+                    .pending
+                    .iter()
+                    .zip(&s.finished)
+                    .all(|(p, f)| *f || p.is_some());
+                if s.running.is_none() && all_parked {
+                    return s
+                        .finished
+                        .iter()
+                        .cloned()
+                        .zip(s.pending.iter().cloned())
+                        .collect();
+                }
+            }
+            g = CV.wait(g).unwrap();
+        }
+    }
+
+    /// Controller: whether the model lock is held, and by whom.
+    pub fn lock_owner() -> Option<usize> {
+        STATE.lock().unwrap().as_ref().and_then(|s| s.lock_owner)
+    }
+
+    /// Controller: lets thread `id` take one step (up to its next point).
+    pub fn step(id: usize) {
+        let mut g = STATE.lock().unwrap();
+        {
+            let s = g.as_mut().expect("no execution");
+            let p = s.pending[id].take().expect("thread not parked");
+            s.trace.push((id, p.point));
+            s.running = Some(id);
+        }
+        CV.notify_all();
+        drop(g);
+    }
+}
+
+/// An atom table handle for exploration harnesses.
+#[derive(Debug, Clone)]
+pub struct VAtomTable {
+    inner: std::sync::Arc<AtomTable>,
+}
+
+/// An interned atom.
+#[derive(Debug, Clone, Copy, PartialEq, Eq, Hash)]
+pub struct VAtom {
+    atom: Atom,
+}
+
+impl VAtomTable {
+    /// The process-wide atom table (created if no handle to it is alive).
+    pub fn new() -> Self {
+        VAtomTable {
+            inner: AtomTable::new().expect("atom table allocation"),
+        }
+    }
+
+    /// Interns `text`.
+    pub fn intern(&self, text: &str) -> VAtom {
+        VAtom {
+            atom: AtomTable::build_with(&self.inner, text),
+        }
+    }
+
+    /// Number of dynamic entries in the table.
+    pub fn dynamic_len(&self) -> usize {
+        self.inner.active_table().len()
+    }
+
+    /// Number of dynamic entries with this exact text.
+    pub fn count_text(&self, text: &str) -> usize {
+        self.inner
+            .active_table()
+            .iter()
+            .filter(|a| &*a.as_str() == text)
+            .count()
+    }
+}
+
+impl Default for VAtomTable {
+    fn default() -> Self {
+        Self::new()
+    }
+}
+
+impl VAtom {
+    /// The atom's index.
+    pub fn index(&self) -> u64 {
+        self.atom.index
+    }
+
+    /// The atom's text.
+    pub fn text(&self) -> String {
+        self.atom.as_str().to_string()
+    }
+}
